@@ -80,6 +80,7 @@ class Item:
         self.file = None
         self.ln = None
         self.probe = None
+        self.noop = False
         self.generics = []      # type parameter names (contract) / associated type names w/o Error (interface)
         self.lifetimes = []
         self.generic_params = []
@@ -171,6 +172,9 @@ def build_item(found, crate):
                 m.ep_generics = args
         if mac[0] in ("contract", "interface"):
             m.macro_args = A.tt_flat(mac[1]) if mac[1] else ""
+            # `#[contract(<anything>)]` (the pre-1.0 `module=...` form, see MIGRATING.md) generates nothing: the impl is only
+            # re-emitted stripped (lib.rs contract_impl). Such items take part in the pass-through rule (C13) only.
+            m.noop = mac[0] == "contract" and bool(m.macro_args.strip())
 
     if m.kind == "contract":
         m.self_ty = it["self_ty"]
